@@ -378,17 +378,25 @@ Definition do_timer (t : timer) : M :=
     else (s, []).
 
 (* the tail of run() after runInner returned *)
+Definition clear_timers (s : pstate) : pstate :=
+  set_ssReadyT false (set_ssCloseT false (set_pubReadyT false (set_pubCloseT false s))).
+Definition close_source : M :=
+  fun s =>
+    let cf := s_conf s in
+    if c_static cf then
+      (if negb (c_sod cf) || negb (ods_eqb (s_ssState s) OdInitial) then handler_stop s else (s, []))
+    else match s_source s with Some p => (s, [EPubClosed p]) | None => (s, []) end.
+Definition close_demand : M :=
+  fun s => if s_hUnDemand s then (hook_close HDemand ;; modify (set_hUnDemand false)) s else (s, []).
+Definition close_stream : M :=
+  fun s => match s_stream s with Some _ => set_not_available s | None => (s, []) end.
 Definition do_close : M :=
   emit [ERemovePath] ;;
-  modify (fun s => set_ssReadyT false (set_ssCloseT false (set_pubReadyT false (set_pubCloseT false s)))) ;;
+  modify clear_timers ;;
   fail_on_hold E_TERMINATED ;;
-  (fun s =>
-     let cf := s_conf s in
-     if c_static cf then
-       (if negb (c_sod cf) || negb (ods_eqb (s_ssState s) OdInitial) then handler_stop s else (s, []))
-     else match s_source s with Some p => (s, [EPubClosed p]) | None => (s, []) end) ;;
-  (fun s => if s_hUnDemand s then (hook_close HDemand ;; modify (set_hUnDemand false)) s else (s, [])) ;;
-  (fun s => match s_stream s with Some _ => set_not_available s | None => (s, []) end) ;;
+  close_source ;;
+  close_demand ;;
+  close_stream ;;
   modify (fun s => set_closed true (set_source None s)).
 
 (* requests issued after the loop ended are answered by the wrappers (`case <-pa.ctx.Done()`) *)
